@@ -12,7 +12,7 @@ for f in kf:
         rows.append(f"| {f['property']} | **known** `{f['id']}` | {f['what']} (trigger: {f['trigger']}) | `{f['replay']}` |")
 ftab = "| property | status | what failed on the unchanged tree | replay |\n|---|---|---|---|\n" + "\n".join(rows)
 srows = []
-for d in sorted(glob.glob(os.path.join(ROOT, "seeded", "*"))):
+for d in sorted(x for x in glob.glob(os.path.join(ROOT, "seeded", "*")) if os.path.isdir(x)):
     m = json.load(open(os.path.join(d, "meta.json")))
     first = m["needs_to_manifest"].strip().split("\n")
     head = next((l for l in first if l.strip() and not l.startswith("#")), "").strip("-* ")[:230]
